@@ -49,6 +49,39 @@ theorem C06_json_roundtrip_M (c : Content MKey) (h : WF c) :
   simp only [saveAny, loadAny, lastHeader_save, Kind.ty, load_save c h]
   simp [AnyContent.erased, erased_decorated]
 
+/-! ## a loaded object is a full object (strengthening round) -/
+
+/-- what `load_hypergraph` returns for a saved well-formed object is well-formed again: the round-trip
+    theorems apply to it, and by `C06_wf_reachable` to everything built from it with further `add_node` /
+    `add_edge` / `set_hypergraph_metadata` calls -/
+theorem C06_json_loaded_wf {κ : Type} [DecidableEq κ] [Kind κ] [LawfulKind κ] (c : Content κ) (h : WF c) :
+    ∃ c1 : Content κ, load (save c) = some c1 ∧ WF c1 :=
+  ⟨_, load_save c h, WF_decorated c h⟩
+
+/-- save → load → save → load: the object loaded the second time is still the first one (hyperedge
+    metadata modulo the reserved keys; weights are exact integers of any magnitude) -/
+theorem C06_json_reload {κ : Type} [DecidableEq κ] [Kind κ] [LawfulKind κ] (c : Content κ) (h : WF c) :
+    ∃ c1 : Content κ, load (save c) = some c1 ∧ (load (save c1)).map Content.erased = some c.erased := by
+  refine ⟨_, load_save c h, ?_⟩
+  have h1 := WF_decorated c h
+  rw [load_save _ h1]
+  simp only [Option.map_some]
+  have e1 := erased_decorated ({ c with edges := c.edges.map (decorated c.weighted) } : Content κ)
+  have e2 := erased_decorated c
+  exact congrArg some (e1.trans e2)
+
+/-- a further accepted `add_edge` on the loaded object and then a second round trip: nothing is lost -/
+theorem C06_json_loaded_add_edge {κ : Type} [DecidableEq κ] [Kind κ] [LawfulKind κ] [CanonKind κ] (c c1 c2 : Content κ)
+    (h : WF c) (h1 : load (save c) = some c1) (raw : κ) (w : Option Int) (m : Option Meta)
+    (h2 : addEdge c1 raw w m = some c2) :
+    (load (save c2)).map Content.erased = some c2.erased := by
+  rw [load_save c h] at h1
+  have hw1 : WF c1 := by
+    have := WF_decorated c h
+    rw [Option.some.injEq] at h1
+    rw [← h1]; exact this
+  exact C06_json_roundtrip c2 (WF_addEdge c1 c2 raw w m hw1 h2)
+
 /-! ## saving does not modify the saved object -/
 
 /-- the run of `save_hypergraph` on the live object leaves it as it was and writes `save c` -/
@@ -107,6 +140,19 @@ example : (load (κ := TKey) (save exT)).map (fun c => c.edges.map (fun e => e.2
 /-- without `WF` the round trip can fail: a hyperedge over an unlisted node brings the node back -/
 example : (load (κ := HKey) (save ({ weighted := false, hmeta := [], nodes := [], edges := [(⟨[1]⟩, (4, []))] } : Content HKey))).map
     (fun c => c.nodes) = some [(1, [])] := by decide
+
+/-- weights beyond 2^53 / 2^63 are ordinary contents of the model (quanta `4·(2^53+1)`, `4·(2^64+3)`, negative) -/
+def exBig : Content DKey :=
+  { weighted := true, hmeta := [],
+    nodes := [(1, []), (2, []), (3, [])],
+    edges := [(⟨[1, 2], [3]⟩, (36028797018963972, [])), (⟨[3], [1]⟩, (73786976294838206476, [(.user 2, .tok 24)])),
+              (⟨[2], [1]⟩, (-36893488147419103236, []))] }
+example : WF exBig := by decide
+example : (load (κ := DKey) (save exBig)).map (fun c => c.edges.map (fun e => e.2.1)) =
+    some [36028797018963972, 73786976294838206476, -36893488147419103236] := by decide
+example : ∃ c1 : Content TKey, load (save exT) = some c1 ∧ (load (save c1)).map Content.erased = some exT.erased :=
+  C06_json_reload exT (by decide)
+example : ∃ c1 : Content DKey, load (save exBig) = some c1 ∧ WF c1 := C06_json_loaded_wf exBig (by decide)
 
 /-! ## the round-trip hypothesis `WF` is what the public API guarantees -/
 
